@@ -511,6 +511,9 @@ ensures grows(*old(context), *final(context)),
         ('let params = bind_typed_parameter_list(', 'before', 'proof { assert(context.errs() == old(context).errs() + cond1(!old(context).global(), SemanticErrorKind::NotInGlobalScopeError)); }     //@C13:subroutine-definition-outside-global-scope'),
         ('            let duration =\n                expr_to_asg_texpr(delay_stmt.designator().unwrap().expr(), context).unwrap();', 'after', 'let ghost midd = *context;'),
         ('            Some(asg::Stmt::Delay(asg::DelayStmt::new(', 'before', 'proof { assert(context.errs() == midd.errs() + cond1(!(duration.ty is Duration), SemanticErrorKind::IncompatibleTypesError)); }     //@C13:non-duration-delay-reported'),
+        # ---- C06: an `else` that is written is an else branch of the graph (also an empty one), and only then
+        ('Some(asg::If::new(condition.unwrap(), then_branch, else_branch).to_stmt())', 'before',
+         'proof { assert((else_branch is Some) == (if_stmt.sp_false_body_block_or_stmt() is Some)); }     //@C06:else-branch-iff-written'),
         # ---- C07: a declaration that bound nothing is marked in the graph
         ('context.new_binding(name_str.as_ref(), &typ, &q_decl);', 'after', RM_('symbol_id', 'name_str@')),
         ('Some(asg::GateDefinition::new(gate_name_symbol_id, params, qubits, block).to_stmt())', 'before', RM_('gate_name_symbol_id', 'gate.sp_name()->Some_0.sp_string()')),
@@ -645,7 +648,7 @@ ensures
     final(context).errs() == old(context).errs(), final(context).trace() == old(context).trace(), final(context).symbol_table == old(context).symbol_table,
 '''))
     zov.setdefault('can_cast_literal', {}).update(dict(ret='r', props=['C08'], rewrites=[('D23', 'matches!(lhs_type, &Type::UInt(..))', 'matches!(*lhs_type, Type::UInt(..))')], spec='ensures (r && !(*lhs_type is UInt && literal is Int)) ==> !types::must_diagnose(*lhs_type, *init_type),      //@C08:no-literal-cast-for-kind-lowering'))
-    KL_ = 'proof { assert(types::must_diagnose(lhs_type, it0) ==> type_diag_last(context.errs())); }     //@C08:kind-lowering-always-diagnosed'
+    KL_ = 'proof { assert(types::must_diagnose(lhs_type, it0) ==> type_diag_last(context.errs())); assert((types::narrows(lhs_type, it0) && !(initializer.expression is Literal)) ==> type_diag_last(context.errs())); }     //@C08:kind-lowering-always-diagnosed'
     zov.setdefault('classical_declaration_statement_to_asg_stmt', {})['ghost'] = [
         # C08: a conversion that lowers the kind (float -> int, complex -> real, anything to or from bit / bool / duration /
         # angle of another kind) is diagnosed on every path: never stored silently, not even behind a cast
@@ -687,6 +690,9 @@ ensures
     // (integer-literal values are the recorded finding / decided by sign; no variable has type void)
     assert((symbol_ok && types::must_diagnose(symbol_type, ex0.ty) && !(ex0.expression is Literal && ex0.expression->Literal_0 is Int) && !(symbol_type is Void))
            ==> context.errs().len() == e1.len() + 1 && is_type_diag(context.errs().last()));     //@C08:kind-lowering-always-diagnosed
+    // C08: a width narrowing of a non-constant (non-literal) value is never accepted silently either
+    assert((symbol_ok && types::narrows(symbol_type, ex0.ty) && !(ex0.expression is Literal))
+           ==> context.errs().len() == e1.len() + 1 && is_type_diag(context.errs().last()));     //@C08:width-narrowing-always-diagnosed
 }'''),
             ('let stmt_asg = Some(asg::Assignment::new(lvalue, expr).to_stmt());', 'before', '''let ghost td = context.errs().skip(e1.len() as int);
 let ghost lv0 = lvalue; let ghost rv0 = expr;
@@ -854,6 +860,10 @@ ensures
                       ('D34', 'parse_included_files<P: AsRef<Path>>(', 'parse_included_files<P>(')]
     except (KeyError, ValueError):
         pif_rw = [('STUB-nested-fn', '\n    fn parse_one_included<NOT-FOUND', '')]
+    _sfg = U.file(SF)
+    _sfg.guard('have_syntax_errors', None, block=r'pub trait SourceTrait\b', why='SourceTrait::have_syntax_errors (C11 gate of analyze_source) is a trait default method that recurses through its own impl: Verus rejects the shape; the analyser is proved against its specification')
+    _sfg.guard('new', None, impl='SourceFile', why='SourceFile::new stores the parsed source and the included list: part of what the assumed precondition `analyzable` rests on')
+    _sfg.guard('parse_source_and_includes', None, why='parses a text and collects its included files: part of what `analyzable` rests on')
     U.raw('''use source::ParsedSource;
 /// source_file.rs (trusted): searches the path list; the model has no std::path, so the `AsRef<Path>` bounds are dropped (D34)
 #[verifier::external_body] pub fn resolve_file_path<P>(file_path: &String, search_path_list: Option<&[P]>) -> PathBuf { unimplemented!() }
